@@ -365,6 +365,13 @@ def run(ctx: Ctx) -> int:
 		for c in cases[:200]:
 			t = c['text']
 			bad += [f'x = {t} )\n', f'x = = {t}\n', f'if a:\n\tx = {t} ]\n', f'if a:\n\ty = 1\n\tx = ( {t}\nz = 2\n', f'x = {t}\ny = 1 2\n']
+		# cause tokens after a token that spans lines, after comments, after non-ASCII text
+		bad += [
+			'x = """a\nb""" )\n', 's = """a\nb"""\nx = 1 2\n', 'x = (1,\n  2 3)\n', 'x = 1 + \\\n  2 3\n',
+			'class A:\n\t"""doc\n\tmore"""\n\tdef f(self) -> int:\n\t\treturn 1 2\n', 'x = [\n\t1,\n\t2,\n] ]\n',
+			"x = {'a': 1,\n'b': 2} }\n", 'def f(a: int,\n\tb: int) -> int:\n\treturn a b\n', '# comment\nx = 1 # c\ny = 2 3 # d\n',
+			'x = "\u65e5\u672c\u8a9e" 3\n', 'x = "\u65e5\u672c" + "\u8a9e" )\n',
+		]
 		r5 = list(ex.map(_check_own_parser_carets, [(bad[i::16],) for i in range(16)]))
 		from harness import real_modules
 		modules = real_modules.QUICK if quick else real_modules.LOAD_OK
